@@ -32,13 +32,13 @@ const (
 
 // DirPlan is the fault plan of one direction of a link.
 type DirPlan struct {
-	Chunk    func(avail int) int        // how many of the avail readable bytes a Read may return (nil: all)
-	Delay    func(n int) time.Duration  // delivery latency of a write of n bytes (nil: none)
-	Capacity int                        // send buffer in bytes, 0 = unbounded
-	Stalls   []Stall                    // pauses in delivery
-	CutAfter int64                      // cut once this many bytes were written (<0: never)
+	Chunk    func(avail int) int       // how many of the avail readable bytes a Read may return (nil: all)
+	Delay    func(n int) time.Duration // delivery latency of a write of n bytes (nil: none)
+	Capacity int                       // send buffer in bytes, 0 = unbounded
+	Stalls   []Stall                   // pauses in delivery
+	CutAfter int64                     // cut once this many bytes were written (<0: never)
 	CutKind  CutKind
-	Mutate   func(off int64, b []byte)  // in-place corruption of bytes on their way (nil: none)
+	Mutate   func(off int64, b []byte) // in-place corruption of bytes on their way (nil: none)
 }
 
 // Stall pauses delivery for For once AfterBytes bytes have been delivered.
@@ -300,6 +300,7 @@ type Conn struct {
 	in, out      *Dir
 	laddr, raddr simAddr
 	closed       bool
+	linger0      bool
 	rdl, wdl     time.Time
 	rtimer       *time.Timer
 	wtimer       *time.Timer
@@ -334,7 +335,7 @@ func (c *Conn) Read(b []byte) (int, error) {
 		case c.closed:
 			n.mu.Unlock()
 			return 0, opErr("read", net.ErrClosed)
-		case d.rst:
+		case d.rst && len(d.buf) == 0:
 			d.Reads = append(d.Reads, IO{Off: d.read, Err: "reset", Step: simrt.Step(), At: simrt.Now()})
 			n.mu.Unlock()
 			return 0, opErr("read", syscall.ECONNRESET)
@@ -342,6 +343,8 @@ func (c *Conn) Read(b []byte) (int, error) {
 			n.mu.Unlock()
 			return 0, nil
 		case len(d.buf) > 0:
+			// (also after a reset: what had already been delivered to this host is still in its
+			// receive queue and is read before the error, as on Linux; what was in flight is gone)
 			k := len(d.buf)
 			if k > len(b) {
 				k = len(b)
@@ -626,6 +629,8 @@ func (lk *Link) cutLocked(kind CutKind) {
 		case CutRST:
 			d.rst = true
 			d.cutDone = true
+			d.inflight = nil
+			d.inflightN = 0
 		case CutHole:
 			d.hole = true
 		}
@@ -662,6 +667,9 @@ func (c *Conn) Close() error {
 		return opErr("close", net.ErrClosed)
 	}
 	c.closed = true
+	if c.linger0 {
+		c.link.cutLocked(CutRST)
+	}
 	c.out.fin = true
 	c.in.readerGone = true
 	if c.rtimer != nil {
@@ -685,11 +693,50 @@ func (c *Conn) Close() error {
 func (c *Conn) CloseWrite() error {
 	n := c.link.net
 	n.mu.Lock()
+	if c.closed {
+		n.mu.Unlock()
+		return opErr("close", net.ErrClosed)
+	}
+	if c.out.rst {
+		// shutdown(2) on a connection the peer has reset
+		n.mu.Unlock()
+		return opErr("shutdown", syscall.ENOTCONN)
+	}
 	c.out.fin = true
 	c.out.pumpLocked(time.Now())
 	if len(c.out.inflight) == 0 {
 		fire(&c.out.rw)
 	}
+	n.mu.Unlock()
+	return nil
+}
+
+// CloseRead shuts down the reading side: later reads fail, the peer's writes are lost.
+func (c *Conn) CloseRead() error {
+	n := c.link.net
+	n.mu.Lock()
+	defer n.mu.Unlock()
+	if c.closed {
+		return opErr("close", net.ErrClosed)
+	}
+	c.in.readerGone = true
+	fire(&c.in.rw)
+	fire(&c.in.ww)
+	return nil
+}
+
+// The remaining *net.TCPConn knobs exist so that code asserting the concrete type keeps
+// building; they have no effect on the simulated link, except SetLinger(0), after which Close
+// resets the connection instead of finishing it.
+func (c *Conn) SetNoDelay(bool) error                  { return nil }
+func (c *Conn) SetKeepAlive(bool) error                { return nil }
+func (c *Conn) SetKeepAlivePeriod(time.Duration) error { return nil }
+func (c *Conn) SetReadBuffer(int) error                { return nil }
+func (c *Conn) SetWriteBuffer(int) error               { return nil }
+func (c *Conn) SetLinger(sec int) error {
+	n := c.link.net
+	n.mu.Lock()
+	c.linger0 = sec == 0
 	n.mu.Unlock()
 	return nil
 }
